@@ -604,3 +604,132 @@ Print Assumptions C20_get_substitute_variables.
 Theorem C20_default_bounds_generated : forall t, default_bounds t = (gen_dflt_lb t, gen_dflt_ub t).
 Proof. exact default_bounds_generated. Qed.
 Print Assumptions C20_default_bounds_generated.
+
+(* ------------------------------------------------------------------------
+   Energy level: AdjMore.substitute_variables is g11's loop-shaped mirror
+   (Model/AdjSubstAll.v), so its energy theorems hold for the function this check
+   evaluates (Proofs/AdjMoreEnergy.v re-exports, nothing is re-proved).
+   ------------------------------------------------------------------------ *)
+From Dimod Require Import Proofs.AdjMoreEnergy.
+From Dimod Require Model.AdjSubstAll.
+Local Open Scope nat_scope.
+
+Theorem C20_substitute_variables_is_loop_mirror :
+  forall k c m, length (adj m) = nvars m ->
+    AdjMore.substitute_variables k c m = AdjSubstAll.substitute_variables k c m.
+Proof. exact substitute_variables_same. Qed.
+Print Assumptions C20_substitute_variables_is_loop_mirror.
+
+Theorem C20_substitute_variables_energy :
+  forall k c m s, Inv m -> (forall u, u < nvars m -> has_interaction m u u = false) ->
+    energy_adj (AdjMore.substitute_variables k c m) s = energy_adj m (fun i => (k * s i + c)%Qc).
+Proof. exact substitute_variables_energy_C20. Qed.
+Print Assumptions C20_substitute_variables_energy.
+
+Theorem C20_bqm_change_vartype_energy :
+  forall cur m s, Inv m -> all_binspin m ->
+    (cur <> SPIN ->
+     energy_adj (fst (fst (AdjMore.bqm_change_vartype cur SPIN m))) s = energy_adj m (fun i => (half * s i + half)%Qc))
+    /\ (cur <> BINARY ->
+        energy_adj (fst (fst (AdjMore.bqm_change_vartype cur BINARY m))) s = energy_adj m (fun i => (two * s i + - (1))%Qc))
+    /\ energy_adj (fst (fst (AdjMore.bqm_change_vartype cur cur m))) s = energy_adj m s.
+Proof. exact bqm_change_vartype_energy_C20. Qed.
+Print Assumptions C20_bqm_change_vartype_energy.
+
+(* ------------------------------------------------------------------------
+   Expression / Constraint / ConstrainedQuadraticModel: the functions of
+   Model/ChkC20Cqm.v that are not operations of g9's ExprOps (proofs in
+   Proofs/ChkC20CqmFacts.v).  Inside a module because Model/Expr.v and
+   Model/Adj.v define list helpers of the same name; the module is exported.
+   ------------------------------------------------------------------------ *)
+From Dimod Require Model.Expr Model.ExprOps Model.ChkC20Cqm Proofs.ExprFacts Proofs.ChkC20CqmFacts.
+Module Cqm.
+Import Dimod.Model.Expr Dimod.Model.ExprOps Dimod.Model.ChkC20Cqm Dimod.Proofs.ExprFacts Dimod.Proofs.ChkC20CqmFacts.
+Local Open Scope Qc_scope.
+
+Theorem C20_expr_set_quadratic_inv :
+  forall n vt e u v b, ExprInv n e -> (u < n)%nat -> (v < n)%nat -> ExprInv n (m_set_quadratic vt u v b e).
+Proof. exact set_quadratic_inv. Qed.
+Print Assumptions C20_expr_set_quadratic_inv.
+
+(* unless the call throws (BINARY/SPIN self-loop), the pair then carries exactly the bias that was set *)
+Theorem C20_expr_set_quadratic_reads :
+  forall n vt e u v b, ExprInv n e -> (u < n)%nat -> (v < n)%nat ->
+    let i := snd (enforce u (fst (enforce v e))) in
+    let j := snd (enforce v e) in
+    ((i =? j)%nat && binspin (vt (nth i (e_vars (fst (enforce u (fst (enforce v e))))) 0%nat))) = false ->
+    pair_sum (e_quad (m_set_quadratic vt u v b e)) i j = b
+    /\ pair_present (e_quad (m_set_quadratic vt u v b e)) i j = true.
+Proof. exact set_quadratic_reads. Qed.
+Print Assumptions C20_expr_set_quadratic_reads.
+
+Theorem C20_expr_fix_variable_inv : forall n e v a, ExprInv n e -> ExprInv n (m_fix_variable v a e).
+Proof. exact fix_variable_inv. Qed.
+Print Assumptions C20_expr_fix_variable_inv.
+
+Theorem C20_expr_fix_variable_forgets : forall n e v a, ExprInv n e -> ~ In v (e_vars (m_fix_variable v a e)).
+Proof. exact fix_variable_forgets. Qed.
+Print Assumptions C20_expr_fix_variable_forgets.
+
+Theorem C20_expr_scale_inv : forall n k e, ExprInv n e -> ExprInv n (m_scale k e).
+Proof. exact scale_inv. Qed.
+Print Assumptions C20_expr_scale_inv.
+
+Theorem C20_expr_scale_energy : forall k e s, energy (abs_expr (m_scale k e)) s = k * energy (abs_expr e) s.
+Proof. exact scale_energy. Qed.
+Print Assumptions C20_expr_scale_energy.
+
+(* Constraint::scale with its LE/GE flip for a negative factor: same satisfying samples *)
+Theorem C20_constraint_scale_keeps_meaning :
+  forall k c s, k <> 0 -> (holds (con_scale k c) s <-> holds c s).
+Proof. exact con_scale_holds. Qed.
+Print Assumptions C20_constraint_scale_keeps_meaning.
+
+Theorem C20_remove_constraints_if_ok : forall n p l, cons_ok n l -> cons_ok n (filter p l).
+Proof. exact remove_constraints_if_ok. Qed.
+Print Assumptions C20_remove_constraints_if_ok.
+
+Theorem C20_remove_constraints_if_spec :
+  forall (p : mcon -> bool) l k, In k (filter (fun c => negb (p c)) l) <-> In k l /\ p k = false.
+Proof. exact remove_constraints_if_spec. Qed.
+Print Assumptions C20_remove_constraints_if_spec.
+
+Theorem C20_is_onehot_spec :
+  forall vt c, is_onehot vt c = true <->
+    e_quad (mc_e c) = [] /\ (2 <= length (e_vars (mc_e c)))%nat /\ mc_sense c = 2%nat /\ e_off (mc_e c) = 0
+    /\ (forall v, In v (e_vars (mc_e c)) -> vt v = BINARY) /\ (forall l, In l (e_lin (mc_e c)) -> l = mc_rhs c).
+Proof. exact is_onehot_spec. Qed.
+Print Assumptions C20_is_onehot_spec.
+
+(* the value compared with Expression::energy is the energy of the polynomial the expression stands for *)
+Theorem C20_model_energy_is_energy :
+  forall n e x, ExprInv n e -> model_energy e x = energy (abs_expr e) (fun v => nth v x 0).
+Proof. exact model_energy_is_energy. Qed.
+Print Assumptions C20_model_energy_is_energy.
+
+(* the copying fix_variables path: every expression of the new model is well formed over the new
+   variable count, which is the number of unfixed variables; the constraints are all kept *)
+Theorem C20_fix_variables_copy_ok :
+  forall vs asg q,
+    let q' := cqm_fix_variables vs asg q in
+    ExprInv (length (m_info q')) (m_obj q') /\ cons_ok (length (m_info q')) (m_cons q')
+    /\ length (m_info q') = count_free (length (m_info q)) vs
+    /\ length (m_cons q') = length (m_cons q).
+Proof. exact cqm_fix_variables_ok. Qed.
+Print Assumptions C20_fix_variables_copy_ok.
+
+Theorem C20_fix_expr_inv :
+  forall K vt' o2n a e,
+    (forall v nv, nth v o2n None = Some nv -> (nv < K)%nat) -> ExprInv K (fix_expr vt' o2n a e).
+Proof. exact fix_expr_inv. Qed.
+Print Assumptions C20_fix_expr_inv.
+
+(* non-trivial data *)
+Example C20_example_scale_flip :
+  let c := mkMC (m_add_linear 1 (qc 3 1) (m_add_linear 0 (qc 2 1) e_empty)) 0%nat (qc 4 1) None 0%nat false in
+  mc_sense (con_scale (qc (-2) 1) c) = 1%nat /\ mc_rhs (con_scale (qc (-2) 1) c) = qc (-8) 1
+  /\ e_lin (mc_e (con_scale (qc (-2) 1) c)) = [qc (-4) 1; qc (-6) 1].
+Proof. vm_compute. repeat split; reflexivity. Qed.
+
+End Cqm.
+Export Cqm.
